@@ -1,9 +1,9 @@
 (* C15/Properties.v — property theorems only.
    "partial": serde_json's writer is modelled by [serialise] (checked against the real bytes by
    the correspondence run, not verified); schema conformance of all fields is an oracle. *)
-From Coq Require Import Lia.
+From Coq Require Import Lia Permutation Sorted.
 From RM Require Import Gen.C15Fmt.
-From RM Require Import C15.Model C15.Schema C15.Widths C15.Utf8 C15.Pretty C15.Proofs C15.Proofs2 C15.Proofs3 C15.Proofs4 C15.Proofs5 C15.Proofs6 C15.Proofs7 C15.Scalar C15.Proofs8.
+From RM Require Import C15.Model C15.Schema C15.Widths C15.Utf8 C15.Pretty C15.Proofs C15.Proofs2 C15.Proofs3 C15.Proofs4 C15.Proofs5 C15.Proofs6 C15.Proofs7 C15.Scalar C15.Proofs8 C15.Proofs9 C15.Regs C15.Proofs10.
 Open Scope Z_scope.
 
 (* Escaping is total and correct: every JSON value — arbitrary nesting, arbitrary integers,
@@ -443,6 +443,59 @@ Theorem c15_state_scalar_rejects :
   sc_thread {| th_id := 1; th_name := Some [34; 92; 0; 31; 65533; 128512; 1114111]; th_last_error := None; th_frames := [] |} = true.
 Proof. vm_compute. repeat split; reflexivity. Qed.
 Print Assumptions c15_state_scalar_rejects.
+
+(* PROC_LIMITS.  For every well-formed state with a limits table (the HashMap's entries in ANY iteration order l): the report's
+   proc_limits.limits is [sort_limits l] rendered element by element — a permutation of the table, in non-decreasing code-point (= UTF-8
+   byte) order of the names; each element carries its name, unit and the two limits, where a numeric limit is the JSON NUMBER with exactly
+   that value for EVERY u64 (also above 2^53: no string, no rounding — the number's text is its decimal digits and parses back to it),
+   `unlimited` and `err` are those two strings. *)
+Theorem c15_proc_limits : forall p s l, wf_state s = true -> s_limits s = Some l ->
+  exists j, json_of_state p s = Ret j /\
+    jget k_proc_limits j = Some (JObj [(k_limits, JArr (map json_of_limit (sort_limits l)))]) /\
+    Permutation (sort_limits l) l /\
+    StronglySorted (fun a b => str_leb (li_name a) (li_name b) = true) (sort_limits l) /\
+    (forall x, jget k_name (json_of_limit x) = Some (JStr (li_name x)) /\ jget k_unit (json_of_limit x) = Some (JStr (li_unit x)) /\
+       jget k_soft (json_of_limit x) =
+         Some (match li_soft x with LLimited n => JNum n | LUnlimited => JStr s_unlimited | LErr => JStr s_err end) /\
+       jget k_hard (json_of_limit x) =
+         Some (match li_hard x with LLimited n => JNum n | LUnlimited => JStr s_unlimited | LErr => JStr s_err end)) /\
+    (forall n, 0 <= n -> serialise (JNum n) = dec_digits n /\ parse (serialise (JNum n)) = Some (JNum n)).
+Proof.
+  intros p s l Hw Hl. destruct (limits_json p s l Hw Hl) as (j & Hj & Hp). exists j.
+  split; [exact Hj|]. split; [exact Hp|]. split; [apply sort_perm|]. split; [apply sort_sorted|]. split.
+  - intro x. unfold json_of_limit. cbn [jget assoc list_eqb]. rewrite !lim_value. repeat split; reflexivity.
+  - intros n Hn. split; [|apply serialise_parse]. cbn [serialise]. unfold ser_num.
+    assert (E : (n <? 0) = false) by (apply Z.ltb_ge; lia). rewrite E. reflexivity.
+Qed.
+Print Assumptions c15_proc_limits.
+
+(* non-vacuity: limits above 2^53 are numbers with all their digits; the sort is by code points *)
+Example c15_nonvacuous_limits :
+  serialise (json_of_lim (LLimited 18446744073709551615)) = [49;56;52;52;54;55;52;52;48;55;51;55;48;57;53;53;49;54;49;53] /\
+  serialise (json_of_lim (LLimited 9007199254740993)) = [57;48;48;55;49;57;57;50;53;52;55;52;48;57;57;51] /\
+  map li_name (sort_limits [ {| li_name := [98]; li_soft := LErr; li_hard := LErr; li_unit := [] |};
+                             {| li_name := [233]; li_soft := LErr; li_hard := LErr; li_unit := [] |};
+                             {| li_name := [65; 98]; li_soft := LErr; li_hard := LErr; li_unit := [] |};
+                             {| li_name := [65]; li_soft := LErr; li_hard := LErr; li_unit := [] |} ]) = [[65]; [65; 98]; [98]; [233]].
+Proof. vm_compute. repeat split; reflexivity. Qed.
+
+(* REGISTER FILES OF THE SOURCE.  REGISTER_TABLES is regenerated by translate/c15_regs.py from minidump/src/context.rs on every run: per raw
+   context kind the general-purpose register names json_registers walks and size_of::<Register>() (format_register prints 2 digits per byte).
+   FINITE CHECK: in every table no register is named like an Address member, the names are distinct and the size is 4 or 8.  Hence for
+   registers taken from the table of a context kind ([regs_from_table], evaluated on every real state of the run) the hypothesis
+   regs_named_ok of c15_address_widths and the digit-count clause of wf_state hold, and the whole-document pointer-width theorem needs no
+   hypothesis about register names. *)
+Theorem c15_register_tables :
+  forallb table_ok REGISTER_TABLES = true /\ length REGISTER_TABLES = 9%nat /\
+  (forall kind regs, regs_from_table kind regs = true ->
+     regs_named_ok regs = true /\ forallb (fun r : list Z * Z * nat => (snd r <=? 16)%nat && (1 <=? snd r)%nat) regs = true) /\
+  (forall p s kind, wf_state s = true -> regs_from_table kind (s_registers s) = true ->
+     exists j, json_of_state p s = Ret j /\ widths (s_width s) [] j = true).
+Proof.
+  split; [exact tables_ok|]. split; [reflexivity|]. split; [exact regs_from_table_ok|].
+  intros p s kind Hw Hr. apply c15_address_widths; [exact Hw|exact (proj1 (regs_from_table_ok kind _ Hr))].
+Qed.
+Print Assumptions c15_register_tables.
 
 (* ---- non-vacuity ---- *)
 Example c15_nonvacuous_roundtrip :
